@@ -13,7 +13,7 @@ RULE = (
     "(ploidy, n)), constructed from a shuffled allele list, checked against the combinatorial-number-system model "
     "(index, gap-freeness 0..C(P+n-1,P)-1, state round trip, deepcopy, ==/</hash vs. index on all pairs of a "
     "stratum, is_homozygous, str, PhredGenotypeLikelihoods.genotypes() order); random multisets up to the limits "
-    "(ploidy 14, allele 15); ploidy 15 / allele 16 must raise. edit_distance: all ordered pairs over {A,C} up to "
+    "(ploidy 15 = get_max_genotype_ploidy(), allele 15 = get_max_genotype_alleles() - 1); ploidy 16 / allele 16 must raise. edit_distance: all ordered pairs over {A,C} up to "
     "length L2 and {A,C,G} up to L3 (quick L2=7,L3=5; thorough 8,6; sanitizer lane one less), str and bytes, unbanded and for every maxdiff "
     "0..max(len)+1; random pairs up to length 400 with planted common prefixes/suffixes and few edits. "
     "Non-trivial: heterozygous genotype of ploidy>=2 with >=3 allele values in range, or a string pair with distance >=1 "
@@ -22,7 +22,7 @@ RULE = (
 EXHAUSTIVE = {"quick": False, "thorough": False}
 REQUIRED_COUNTERS = ["gt_checked", "gt_index_sets_gapfree", "ed_unbanded_checked", "ed_banded_checked", "limit_raises_checked"]
 ASSUMPTIONS = [
-    "limits: ploidy <= 14, allele <= 15 (MAX_PLOIDY/MAX_ALLELES of the implementation); beyond them only 'raises' is checked",
+    "limits: ploidy <= 15, allele <= 15 as advertised by get_max_genotype_ploidy() / get_max_genotype_alleles(); beyond them only 'raises' is checked",
 ]
 
 GT_STRATA = [(p, n) for p in range(1, 7) for n in range(1, 7)]
@@ -161,12 +161,22 @@ def _gt_stratum(p, n, rng, counters, keys):
 def _gt_random(rng, counters, keys):
     from whatshap.core import Genotype
 
+    from whatshap.core import get_max_genotype_alleles, get_max_genotype_ploidy
+
+    # the supported limits are the ones the package itself advertises (and VcfReader enforces), not what a constructor happens to accept
+    pmax, amax = get_max_genotype_ploidy(), get_max_genotype_alleles() - 1
+    if (pmax, amax) != (15, 15):
+        raise Viol("advertised limits changed: max ploidy %r, max allele index %r" % (pmax, amax))
     for _ in range(300):
-        p = rng.choice([rng.randint(1, 14), 14, 13, rng.randint(7, 14)])
-        hi = rng.choice([15, 15, rng.randint(1, 15)])
+        p = rng.choice([rng.randint(1, pmax), pmax, pmax - 1, pmax - 2, rng.randint(7, pmax)])
+        hi = rng.choice([amax, amax, rng.randint(1, amax)])
         alleles = [rng.randint(0, hi) for _ in range(p)]
         if rng.random() < 0.2:
             alleles = [rng.choice([0, hi])] * p
+        try:
+            Genotype(alleles)
+        except RuntimeError as e:
+            raise Viol("Genotype(%r) (ploidy %d, largest allele %d: within the advertised limits %d / %d) raised %s: %s" % (alleles, p, max(alleles), pmax, amax, type(e).__name__, e))
         g = _check_one(Genotype, alleles, rng, counters)
         b = [rng.randint(0, hi) for _ in range(p)]
         gb = _check_one(Genotype, b, rng, counters)
@@ -189,7 +199,7 @@ def _gt_random(rng, counters, keys):
     if not e.is_none() or e.get_ploidy() != 0 or str(e) != ".":
         raise Viol("empty genotype: is_none=%r ploidy=%r str=%r" % (e.is_none(), e.get_ploidy(), str(e)))
     # limits must raise, not corrupt
-    for bad in ([0] * 15, [0] * 16, [1] * 20, [16], [0, 16], [3, 17, 1], [2**31]):
+    for bad in ([0] * (pmax + 1), [0] * (pmax + 2), [1] * 20, [amax + 1], [0, amax + 1], [3, 17, 1], [2**31]):
         try:
             g = Genotype(bad)
         except (RuntimeError, OverflowError, ValueError):
@@ -217,8 +227,10 @@ def _ed_check(edit_distance, s, t, counters, keys, bands):
 
     if order == 0:
         unbanded()
-    for k in bands:
-        got = edit_distance(s, t, k)
+    for j, k in enumerate(bands):
+        # str and bytes arguments, also mixed (the window of a read is compared with alleles read from another source)
+        a, b = [(s, t), (s.encode(), t.encode()), (s, t.encode()), (s.encode(), t)][(j + len(s)) % 4]
+        got = edit_distance(a, b, k)
         if d <= k:
             if got != d:
                 raise Viol("edit_distance(%r,%r,maxdiff=%d)=%r, true distance %d <= band" % (s, t, k, got, d))
